@@ -44,10 +44,17 @@ def corr_replay(env):
         'constant': pd.DataFrame({'p': a, 'k': np.full(300, 2.5), 'q': rs.normal(size=300)}),
         'unsorted labels': pd.DataFrame({'z': a, 'b': a ** 3, 'm': rs.normal(size=300)}),
     }
-    for name, X in tables.items():
-        m = GaussianMultivariate(distribution=GaussianUnivariate)
+    for name, X in list(tables.items()) + [(k + ' (instance prototype)', v) for k, v in tables.items()]:
+        proto = GaussianUnivariate()
+        m = GaussianMultivariate(distribution=proto if name.endswith('prototype)') else GaussianUnivariate)
         m.fit(X)
         R = m.correlation
+        if len({id(u) for u in m.univariates}) != len(m.univariates) or any(u is proto for u in m.univariates):
+            bad.append('%s: columns share one marginal object' % name)
+        for col, u in zip(X.columns, m.univariates):
+            pr = u.to_dict()
+            if 'loc' in pr and X[col].nunique() > 1 and not np.isclose(pr['loc'], X[col].mean(), rtol=1e-9, atol=1e-12):
+                bad.append('%s: marginal of column %s has loc %.6g, the column mean is %.6g' % (name, col, pr['loc'], X[col].mean()))
         if list(R.columns) != list(X.columns) or list(R.index) != list(X.columns):
             bad.append('%s: labels %r' % (name, list(R.columns)))
         Z = []
@@ -81,11 +88,12 @@ def build(chk):
         consts = [()] + [(l,) for l in labels[:2]] + ([tuple(labels[:2])] if d >= 3 else [])
         if chk.tier == 'thorough':
             consts = [c for r in range(0, d) for c in itertools.combinations(labels, r)]
-        for const in consts + (['partial_dict'] if d == 3 else []):
+        for const in consts + (['partial_dict'] if d == 3 else []) + ['instance']:
             partial = const == 'partial_dict'
-            if partial:
+            shared = const == 'instance'
+            if partial or shared:
                 const = ()
-            tag = 'd%d.const_%s%s' % (d, ''.join(const) or 'none', '.partial_dict' if partial else '')
+            tag = 'd%d.const_%s%s' % (d, ''.join(const) or 'none', '.partial_dict' if partial else '.instance' if shared else '')
             I = engine.new_interp()
             gm.install_rootfinders(I)
             G = I.resolve(uni.CLASSES['GaussianUnivariate'][0])
@@ -99,8 +107,14 @@ def build(chk):
                 I.summaries['copulas.univariate.selection.select_univariate'] = \
                     lambda interp, args, kwargs: uni.new_model(interp, 'GaussianUnivariate')
 
-            def body(c, I=I, labels=labels, const=const, dist=dist):
+            def body(c, I=I, labels=labels, const=const, dist=dist, shared=shared, G=G):
+                if shared:
+                    # ONE configured instance given for every column: it is a prototype, each column gets its own copy
+                    dist = I.call(G, [], {})
                 m = gm.fit_model(I, c, labels, dist if not isinstance(dist, dict) else dict(dist), constant=const)
+                us = m.attrs['univariates']
+                c.out['distinct'] = len({id(u) for u in us}) == len(us) and all(u is not dist for u in us)
+                c.out['params'] = [dict(getattr(u, 'attrs', {}).get('_params') or {}) for u in us]
                 c.out['m'] = m
                 c.out['R'] = m.attrs['correlation']
                 c.out['Z'] = gm.spec_scores(I, m, labels)
@@ -132,6 +146,21 @@ def build(chk):
                            clause='correlation is labelled by the training columns in order', replay=corr_replay))
                 if not ok_lab:
                     continue
+                chk.add(Ob('C02.%s.own_marginal.%d' % (tag, kr), [], ir.const(bool(r.state['distinct'])),
+                           backends=('syntactic',), function=GM + '._fit_column', replay=corr_replay,
+                           clause='each column is mapped through a marginal object of its own (never the caller\'s prototype, '
+                                  'never one shared between columns)'))
+                for i, l in enumerate(labels):
+                    pr, w = r.state['params'][i], colwhole(l)
+                    sp = {'GaussianUnivariate': {'loc': ir.uf('np.mean', [w]), 'scale': ir.uf('np.std', [w, ir.ZERO])},
+                          'UniformUnivariate': {'loc': ir.uf('np.min', [w]),
+                                                'scale': ir.sub(ir.uf('np.max', [w]), ir.uf('np.min', [w]))}
+                          }.get(r.state['classes'][i])
+                    if sp and pr and l not in const:
+                        goal = ir.and_(*[ir.eq(uni.term(pr[k_]), sp[k_]) if k_ in pr else ir.FALSE for k_ in sp])
+                        chk.add(Ob('C02.%s.marginal_of_its_column.%s.%d' % (tag, l, kr), list(r.pc), goal,
+                                   function=GM + '._fit_column', free_ufs_ok=True, replay=corr_replay,
+                                   clause='the CDF that column %s is mapped through was estimated from column %s' % (l, l)))
                 # non-constant columns have non-constant scores (stated assumption); constant ones constant scores
                 hy = list(r.pc)
                 for i, l in enumerate(labels):
